@@ -196,7 +196,9 @@ class G(object):
             if r.chance(0.7):
                 p["digalg"] = r.pick(DIGALGS)
         if enc:
-            p["self_contained"] = r.chance(0.5)
+            # (unsigned + not self-contained always fails in Entity._response - DESIGN.md section 15 - so that
+            # combination is kept rare: it produces no response to look at)
+            p["self_contained"] = r.chance(0.5) if sa else r.chance(0.9)
         return p
 
 
@@ -655,7 +657,7 @@ def gen_c17(seed, tier):
         sp = r.pick(sps)
         p = g.sign_params(sp)
         p["encrypt"] = True
-        p["self_contained"] = r.chance(0.5)
+        p["self_contained"] = r.chance(0.5) if p.get("sign_assertion") else r.chance(0.9)
         p["identity"] = g.identity(hostile=0.3, empty_ok=False)
         p["lifetime"] = r.pick([60, 600])
         if r.chance(0.5):
